@@ -189,7 +189,13 @@ def run_tlc(specdir, module, cfg, name=None, timeout=900, workers=1, heap="3g", 
         res.ok = True
     elif not res.error:
         errs = [l for l in out.splitlines() if "rror" in l]
-        res.error = "TLC exit %s: %s" % (rc, " | ".join(errs[:6]) or out[-1500:])
+        detail = ""
+        if "unexpected exception" in out or "evaluating" in out:
+            i = out.find("The exception was")
+            j = out.find("The error occurred when TLC was evaluating")
+            detail = " || " + " ".join(out[i:i + 600].split()) if i >= 0 else ""
+            detail += " || " + " ".join(out[j:j + 700].split()) if j >= 0 else ""
+        res.error = "TLC exit %s: %s%s" % (rc, " | ".join(errs[:6]) or out[-1500:], detail)
     shutil.rmtree(meta, ignore_errors=True)
     return res
 
